@@ -24,6 +24,10 @@ pub struct Case {
     /// a stored byte overwritten after the fact (offset, value): may make the bytes invalid UTF-8
     pub flip: Option<(usize, u8)>,
     pub plan: ReadPlan,
+    /// a second document the same consumer (same thread) loads afterwards through a fault-free source:
+    /// state left behind by the first, possibly failed, load must not leak into it
+    #[serde(default)]
+    pub followup: Option<String>,
 }
 
 fn bytes_of(c: &Case) -> Vec<u8> {
@@ -117,9 +121,19 @@ impl Scenario for C01 {
         } else {
             None
         };
+        let mut text = text;
+        if rng.chance(1, 25) {
+            text.insert_str(0, rng.s(&["\u{feff}", "\u{200b}", "\u{feff}\u{feff}"]));
+        }
         let faulty = rng.chance(1, 3);
         let plan = gen_read_plan(rng, text.len(), faulty);
-        Case { text, source: source.to_string(), faults, flip, plan }
+        let followup = if rng.chance(1, 3) {
+            let f = text::DocFlags::swarm(rng);
+            Some(text::doc(rng, &f))
+        } else {
+            None
+        };
+        Case { text, source: source.to_string(), faults, flip, plan, followup }
     }
 
     fn execute(c: &Case, obs: &mut Obs) -> Result<(), Violation> {
@@ -320,7 +334,39 @@ impl Scenario for C01 {
             }
             obs.event(&format!("ch:{}", res.is_ok()));
         }
-        let _ = Deb822::from_str("");
+        // the same consumer loads a second document: nothing of the first load may leak into it
+        if let Some(t2) = &c.followup {
+            obs.count("reach.followup_load_after_faulty_load");
+            let whole = ReadPlan::default();
+            obs.prestate = format!("after-{}", if hard { "hard-error" } else if c.plan.cut.is_some() { "early-eof" } else { "clean-load" });
+            let pre2 = obs.prestate.clone();
+            let (want, want_errs) = Deb822::from_str_relaxed(t2);
+            let want = want.to_string();
+            macro_rules! second {
+                ($label:expr, $call:expr) => {{
+                    probe::at($label);
+                    let mut r = SimReader::new(t2.as_bytes(), &whole);
+                    let got: Option<(String, Vec<String>)> = $call(&mut r);
+                    obs.step();
+                    match got {
+                        Some((printed, errs)) => {
+                            if printed != want || errs != want_errs {
+                                return Err(v("state-leak", $label, &pre2, format!("second load of {:?} on the same thread gave {:?} with errors {:?} (first load: {:?} under {:?})", t2, printed, errs, c.text, c.plan)));
+                            }
+                        }
+                        None => {
+                            return Err(v("state-leak", $label, &pre2, format!("second, fault-free load of {:?} failed (first load: {:?} under {:?})", t2, c.text, c.plan)));
+                        }
+                    }
+                }};
+            }
+            second!("Deb822::read_relaxed#2", |r: &mut SimReader| Deb822::read_relaxed(r).ok().map(|(d, e)| (d.to_string(), e)));
+            second!("Control::read_relaxed#2", |r: &mut SimReader| Control::read_relaxed(r).ok().map(|(d, e)| (d.to_string(), e)));
+            if want_errs.is_empty() {
+                second!("Deb822::read#2", |r: &mut SimReader| Deb822::read(r).ok().map(|d| (d.to_string(), vec![])));
+                second!("Control::read#2", |r: &mut SimReader| Control::read(r).ok().map(|d| (d.to_string(), vec![])));
+            }
+        }
 
         // accounting
         let outcome = if hard {
@@ -352,8 +398,15 @@ impl Scenario for C01 {
         if c.flip.is_some() {
             out.push(Case { flip: None, ..c.clone() });
         }
+        if let Some(f) = &c.followup {
+            out.push(Case { followup: None, ..c.clone() });
+            for t in text::shrink_text(f).into_iter().take(40) {
+                out.push(Case { followup: Some(t), ..c.clone() });
+            }
+        }
         for t in text::shrink_text(&c.text) {
             let mut n = Case { text: t, faults: vec![], ..c.clone() };
+            let _ = &mut n;
             if let Some(cut) = &mut n.plan.cut {
                 cut.at = cut.at.min(n.text.len());
             }
